@@ -53,7 +53,7 @@ func seqPrelude(S, E Sort) string {
      :pattern ((eq.$S a b)) :qid eq_def.$S)))
 (assert (forall ((a $S) (b $S)) (! (=> (eq.$S a b) (= a b)) :pattern ((eq.$S a b)) :qid eq_ext.$S)))
 (assert (forall ((s $S) (e $E)) (! (=> (contains.$S s e) (and (<= 0 (idx.$S s e)) (< (idx.$S s e) (len.$S s)) (= (at.$S s (idx.$S s e)) e))) :pattern ((contains.$S s e)) :qid contains_idx.$S)))
-(assert (forall ((s $S) (i Int)) (! (=> (and (<= 0 i) (< i (len.$S s))) (contains.$S s (at.$S s i))) :pattern ((at.$S s i)) :qid at_contains.$S)))
+(assert (forall ((s $S) (i Int) (e $E)) (! (=> (and (<= 0 i) (< i (len.$S s))) (contains.$S s (at.$S s i))) :pattern ((contains.$S s e) (at.$S s i)) :qid at_contains.$S)))
 (assert (forall ((a $S) (b $S) (e $E)) (! (= (contains.$S (cat.$S a b) e) (or (contains.$S a e) (contains.$S b e))) :pattern ((contains.$S (cat.$S a b) e)) :qid contains_cat.$S)))
 (assert (forall ((x $E) (e $E)) (! (= (contains.$S (unit.$S x) e) (= x e)) :pattern ((contains.$S (unit.$S x) e)) :qid contains_unit.$S)))
 (assert (forall ((e $E)) (! (not (contains.$S empty.$S e)) :pattern ((contains.$S empty.$S e)) :qid contains_empty.$S)))
